@@ -15,8 +15,8 @@ RULE = (
     "Hypothesis generates n <= 30 rows, 1-2 keys (null keys allowed), values of dtype float32/64 or int32/64 with null "
     "placements (leading nulls forced in 1/3 of the float cases), optional boolean mask, and a decay spec: alpha in "
     "(0,1] incl. 1.0 and 1e-6, a real halflife in [0.05, 50] (non-integers forced), or a time-weighted spec with "
-    "irregular non-decreasing nanosecond timestamps (post-1970; a labelled pre-1970/epoch class) and a halflife "
-    "string.  Entry points GroupBy.ema (both layouts), ema_grouped and ema.  Non-trivial = >= 2 groups interleaved, "
+    "irregular non-decreasing timestamps (post-1970; a labelled pre-1970/epoch class) in unit ns/us/ms/s held in a NumPy array, "
+    "Series, DatetimeIndex, timezone-aware Series or polars Series, and a halflife string.  Entry points GroupBy.ema (both layouts), ema_grouped and ema.  Non-trivial = >= 2 groups interleaved, "
     ">= 3 valid rows in one of them and an invalid row between them.  Distinct = case hash."
 )
 ORACLE = ("closed form sum(w_j x_j)/sum(w_j) over the group's valid rows with w=(1-alpha)^(group rows elapsed) or "
@@ -53,9 +53,15 @@ def case_strategy(draw, variant):
         era = draw(st.sampled_from(["post", "post", "post", "epoch", "pre"]))
         start = {"post": 10**18, "epoch": 0, "pre": -10**18}[era]
         steps = draw(st.lists(st.sampled_from([0, 1, 1, 2, 5, 37, 1000]), min_size=n, max_size=n))
+        # unit and container of the timestamps (pandas 3 creates microsecond timestamps by default); the instants are the same
+        spec["tunit"] = draw(st.sampled_from(["ns", "ns", "us", "us", "ms", "s"]))
+        spec["tcont"] = draw(st.sampled_from(["np", "np", "series", "index", "tz", "pl"]))
+        if spec["tcont"] == "pl" and spec["tunit"] == "s":
+            spec["tunit"] = "us"
+        step_ns = 10**9 if spec["tunit"] == "s" else 10**8
         t, times = start, []
         for s in steps:
-            t += s * 10**8
+            t += s * step_ns
             times.append(t)
         spec["times"] = times
         spec["era"] = era
@@ -73,12 +79,26 @@ def halflife_ns(s):
     return pd.Timedelta(s).value
 
 
-def kwargs_of(spec):
+def kwargs_of(spec, index=None):
     if spec["mode"] == "alpha":
         return {"alpha": spec["alpha"]}
     if spec["mode"] == "halflife":
         return {"halflife": spec["halflife"]}
-    return {"halflife": spec["halflife"], "times": np.array(spec["times"], dtype="int64").view("M8[ns]")}
+    t = np.array(spec["times"], dtype="int64").view("M8[ns]")
+    unit, cont = spec.get("tunit", "ns"), spec.get("tcont", "np")
+    if unit != "ns":
+        t = t.astype(f"M8[{unit}]")  # exact: the generated instants are multiples of the unit
+    if cont == "series":
+        t = pd.Series(t, index=index)
+    elif cont == "index":
+        t = pd.DatetimeIndex(t)
+    elif cont == "tz":
+        t = pd.Series(t, index=index).dt.tz_localize("UTC").dt.tz_convert("US/Eastern")
+    elif cont == "pl":
+        import polars as pl
+
+        t = pl.Series(t)
+    return {"halflife": spec["halflife"], "times": t}
 
 
 def expected(case, labels, pyvals, valid):
@@ -123,7 +143,8 @@ def check(case, ctx):
     pyvals = data.val_py(vspec)
     sel = set(model.select(n, case["mask"]))
     valid = [pyvals[i] is not None and i in sel for i in range(n)]
-    kw = kwargs_of(spec)
+    kw = kwargs_of(spec, index if case["render"]["vc"] == "series" else None)
+    kw_plain = kwargs_of(spec)  # for the array-level entry points (no pandas index in play)
     # non-triviality
     rows = {}
     for i, l in enumerate(labels):
@@ -136,7 +157,7 @@ def check(case, ctx):
             if len(v) >= 3 and any(not valid[p] for p in ps if v[0] < p < v[-1]) and any(labels[i] not in (None, l) for i in range(ps[0], ps[-1] + 1)):
                 nt = True
     ctx.seen("ema", case, nt, [f"mode:{spec['mode']}", f"entry:{entry}", f"dtype:{vspec['dtype']}", "mask:" + ("bool" if case["mask"] else "none"),
-                               f"era:{spec.get('era', '-')}", f"leading_null:{bool(n) and pyvals[0] is None}"])
+                               f"era:{spec.get('era', '-')}", f"tunit:{spec.get('tunit', '-')}", f"tcont:{spec.get('tcont', '-')}", f"leading_null:{bool(n) and pyvals[0] is None}"])
     exp = expected(case, labels, pyvals, valid)
     gb = gbops.build(case, keys)
     if entry in ("gb", "gb_by_groups"):
@@ -182,7 +203,7 @@ def check(case, ctx):
         code_of = {l: j for j, l in enumerate(uniq)}
         codes = np.array([-1 if l is None else code_of[l] for l in labels], dtype=np.int64)
         m = None if case["mask"] is None else np.array(case["mask"]["vals"], dtype=bool)
-        res = ema_grouped(codes, len(uniq), data.val_numpy(vspec), mask=m, **kw)
+        res = ema_grouped(codes, len(uniq), data.val_numpy(vspec), mask=m, **kw_plain)
         got = data.series_values(pd.Series(np.asarray(res)))
         compare(case, exp, got, labels, pyvals, valid, f"grouped:{spec['mode']}")
     else:
@@ -194,12 +215,12 @@ def check(case, ctx):
         one = [(0,)] * n
         case1 = dict(case, mask=None)
         exp1 = expected(case1, one, pyvals, valid1)
-        res = ema(data.val_numpy(vspec), **kw)
+        res = ema(data.val_numpy(vspec), **kw_plain)
         got = data.series_values(pd.Series(np.asarray(res)))
         first = next((i for i in range(n) if valid1[i]), None)
         if first is not None:
             compare(case1, exp1, got, one, pyvals, valid1, f"ungrouped:{spec['mode']}", rows=range(first, n))
-            resg = ema_grouped(np.zeros(n, dtype=np.int64), 1, data.val_numpy(vspec), **kw)
+            resg = ema_grouped(np.zeros(n, dtype=np.int64), 1, data.val_numpy(vspec), **kw_plain)
             gg = data.series_values(pd.Series(np.asarray(resg)))
             for i in range(first, n):
                 if not ops.same_values([got[i]], [gg[i]], 1e-9):
